@@ -3,7 +3,7 @@
 (never executed - they are only parsed and handed to the checker in memory) and records which are reported by ANY of the
 19 checks.  Functions none of whose mutants is reported are candidates for new rules (or are irrelevant to the
 properties: cosmetic code, unused helpers).   usage: mutation_coverage.py [path-substring ...]  > report"""
-import ast, copy, json, multiprocessing as mp, os, sys
+import ast, copy, json, multiprocessing as mp, os, subprocess, sys
 ROOT = os.path.dirname(os.path.dirname(os.path.abspath(__file__)))
 sys.path.insert(0, ROOT)
 from sa import report  # noqa: E402
@@ -67,6 +67,33 @@ def apply(tree, fn_name, fn_line, idx):
     return None
 
 
+_WT = None
+
+
+def _init_worker():
+    global _WT
+    import multiprocessing
+    ident = multiprocessing.current_process()._identity[0]
+    _WT = f"/tmp/mcw_{ident}"
+    subprocess.run(["git", "-C", "/repo", "worktree", "remove", "--force", _WT], capture_output=True)
+    subprocess.run(["git", "-C", "/repo", "worktree", "add", "-q", "--detach", _WT, "HEAD"], check=True)
+
+
+def _test_mutant(r):
+    rel, fn, line, desc, _hits, src = r
+    path = os.path.join(_WT, rel)
+    orig = open(path).read()
+    try:
+        open(path, "w").write(src)
+        b = subprocess.run([os.path.join(ROOT, "tools", "baseline_check.py"), _WT], capture_output=True, text=True, timeout=900)
+        alive = b.returncode == 0
+    except Exception:
+        alive = False
+    finally:
+        open(path, "w").write(orig)
+    return rel, fn, line, desc, alive
+
+
 def work(job):
     rel, fn_name, fn_line, idx = job
     repo = Repo()
@@ -87,7 +114,7 @@ def work(job):
         rr = report.run_property(r2, p, "quick")
         if rr.violations or rr.errors:
             hits.append(p + ":" + ",".join(sorted({f.rule for f in rr.violations})[:3]) + ("!" if rr.errors else ""))
-    return (rel, fn_name, fn_line, desc, hits)
+    return (rel, fn_name, fn_line, desc, hits, src if not hits else None)
 
 
 if __name__ == "__main__":
@@ -109,11 +136,28 @@ if __name__ == "__main__":
     with mp.Pool(int(os.environ.get("VERIF_JOBS", "14"))) as pool:
         res = [r for r in pool.map(work, jobs, chunksize=2) if r is not None]
     by_fn = {}
-    for rel, fn, line, desc, hits in res:
+    for rel, fn, line, desc, hits, _src in res:
         by_fn.setdefault((rel, fn, line), []).append((desc, hits))
     tot = len(res)
     det = sum(1 for r in res if r[4])
     print(f"{tot} mutants, {det} reported by at least one check ({100 * det // max(tot, 1)}%)")
+    survivors = []
+    if os.environ.get("MUT_SURVIVORS"):
+        # phase 2 (development only): which unreported mutants also survive the project's own test suite?  Those are the
+        # realistic blind spots.  Each worker owns a scratch git worktree of /repo under /tmp; the mutated file is written
+        # there, the pinned test command is run, the file is restored.
+        todo = [r for r in res if not r[4] and r[5] is not None]
+        print(f"running the test suite on {len(todo)} unreported mutants ...", flush=True)
+        with mp.Pool(int(os.environ.get("MUT_TEST_JOBS", "4")), initializer=_init_worker) as pool:
+            for rel, fn, line, desc, alive in pool.imap_unordered(_test_mutant, todo, chunksize=1):
+                if alive:
+                    survivors.append((rel, fn, line, desc))
+                    print(f"SURVIVES {rel}:{line} {fn}: {desc}", flush=True)
+        for w in range(64):
+            d = f"/tmp/mcw_{w}"
+            if os.path.isdir(d):
+                subprocess.run(["git", "-C", "/repo", "worktree", "remove", "--force", d], capture_output=True)
+        print(f"{len(survivors)} unreported mutants survive the test suite")
     print("\n== functions with NO mutant reported")
     for (rel, fn, line), ms in sorted(by_fn.items()):
         if not any(h for _, h in ms):
@@ -125,3 +169,4 @@ if __name__ == "__main__":
                 if not h:
                     print(f"{rel}:{line} {fn}: {d}")
     json.dump([{"file": r[0], "function": r[1], "line": r[2], "mutant": r[3], "reported_by": r[4]} for r in res], open("/tmp/mutation_coverage.json", "w"), indent=0)
+    json.dump([{"file": a, "function": b, "line": c, "mutant": d} for a, b, c, d in survivors], open("/tmp/mutation_survivors.json", "w"), indent=0)
